@@ -244,6 +244,11 @@ class Executor:
             return st, None
         if z3.is_false(cond):
             return None, st
+        k = st.decided(cond)
+        if k is True:
+            return st, None
+        if k is False:
+            return None, st
         t_ok = self.solver.feasible(st.pc + [cond])
         if not t_ok:
             st.assume(z3.Not(cond))
@@ -285,6 +290,33 @@ class Executor:
             st.flags[("unbox", str(t))] = v
             return Z(t)
         raise Unsupported("cannot box %r" % (v,), node)
+
+    def def_str(self, v, s):
+        """v is certainly a str in state s (static hint, syntactic, or entailed by the path condition)."""
+        if not isinstance(v, Z):
+            return False
+        if v.hint == "str":
+            return True
+        c = s.simp(V.is_Str(v.t))
+        if z3.is_true(c):
+            return True
+        if z3.is_false(c):
+            return False
+        r, _ = self.solver.check(s.pc + [z3.Not(c)], timeout_ms=self.solver.feas_timeout_ms)
+        if r == "unsat":
+            v.hint = "str"
+            return True
+        return False
+
+    def isk(self, v, kind):
+        """z3 Bool "v is of builtin kind": literally True when the static hint already says so."""
+        if kind == "str":
+            return T(True) if v.hint == "str" else V.is_Str(v.t)
+        if kind == "intlike":
+            return T(True) if v.hint in ("int", "bool") else V.is_intlike(v.t)
+        if kind == "num":
+            return T(True) if v.hint in ("int", "bool", "float") else V.is_num(v.t)
+        raise KeyError(kind)
 
     def concrete_str(self, v):
         if isinstance(v, Z):
@@ -421,6 +453,9 @@ class Executor:
                     ts = [self.truth(v, s, e) for v in vals]
                     out.append((s, Z(V.VBool(z3.And(ts) if is_and else z3.Or(ts)), "bool")))
             return out
+        merged = self.boolop_merged(e, st, is_and)
+        if merged is not None:
+            return merged
         results = []
         work = [(st, 0, None)]
         while work:
@@ -446,7 +481,76 @@ class Executor:
                         work.append((f, i + 1, None))
         return results
 
+    # -- non-forking evaluation of `and`/`or`, `x if c else y` and small if-statements ------------
+    def store_sig(self, s):
+        sig = []
+        for k in sorted(s.store):
+            b = s.store[k]
+            if isinstance(b, ListBox):
+                sig.append((k, "L", tuple(id(x) if not isinstance(x, Z) else x.t.get_id() for x in b.items)))
+            elif isinstance(b, SeqBox):
+                sig.append((k, "S", b.term.get_id()))
+            elif isinstance(b, ObjBox):
+                sig.append((k, "O", tuple(sorted((n, (v.t.get_id() if isinstance(v, Z) else id(v))) for n, v in b.fields.items()))))
+            else:
+                sig.append((k, "A", id(b)))
+        return tuple(sig)
+
+    def boolop_merged(self, e, st, is_and):
+        """Evaluate `a and b ...` / `a or b ...` without forking: the right operand is evaluated under
+        the left operand's truth (its safety obligations are guarded by it); value semantics kept by ite.
+        Returns None (and rolls back) when an operand forks, may raise, is not a scalar, or has effects."""
+        if not self.opts.get("merge", True):
+            return None
+        mark_o, mark_p, mark_u = len(self.obligations), len(self.pending), len(self.unsupported)
+        base_pc, base_sig, base_known, base_subst = len(st.pc), None, dict(st.known), list(st.subst)
+
+        def rollback():
+            del self.obligations[mark_o:]
+            del self.pending[mark_p:]
+            del self.unsupported[mark_u:]
+            del st.pc[base_pc:]
+            st.known, st.subst = base_known, base_subst
+            return None
+        try:
+            first = self.ev(e.values[0], st)
+        except Unsupported:
+            return rollback()
+        if len(first) != 1 or is_exc(first[0][1]) or not isinstance(first[0][1], Z) or first[0][0] is not st:
+            return rollback()
+        acc = first[0][1]
+        guards = []
+        base_sig = self.store_sig(st)
+        for operand in e.values[1:]:
+            g = self.truth(acc, st, e)
+            guards.append(g if is_and else z3.Not(g))
+            guard = z3.And(guards) if len(guards) > 1 else guards[0]
+            gs = st.simp(guard)
+            if z3.is_false(gs):
+                break                      # the remaining operands are never evaluated
+            sub = st.fork()
+            sub.assume(guard)
+            n0 = len(sub.pc)
+            try:
+                r = self.ev(operand, sub)
+            except Unsupported:
+                return rollback()
+            if len(r) != 1 or is_exc(r[0][1]) or not isinstance(r[0][1], Z) or r[0][0] is not sub:
+                return rollback()
+            if self.store_sig(sub) != base_sig or sub.nref != st.nref or len(sub.out) != len(st.out):
+                return rollback()
+            for f in sub.pc[n0:]:
+                st.pc.append(z3.Implies(guard, f))
+            b = r[0][1]
+            t_acc = self.truth(acc, st, e)
+            val = z3.If(t_acc, b.t, acc.t) if is_and else z3.If(t_acc, acc.t, b.t)
+            hint = b.hint if b.hint == acc.hint else None
+            acc = Z(val, hint)
+        return [(st, acc)]
+
     def ev_UnaryOp(self, e, st):
+        if isinstance(e.op, ast.USub) and isinstance(e.operand, ast.Constant) and type(e.operand.value) in (int, float):
+            return [(st, Z(V.mk(-e.operand.value), type(e.operand.value).__name__))]
         out = []
         for (s, v) in self.ev(e.operand, st):
             if is_exc(v):
@@ -476,9 +580,9 @@ class Executor:
     def binop(self, op, a, b, s, e):
         if isinstance(a, Z) and isinstance(b, Z):
             if isinstance(op, ast.Add):
-                both_str = z3.And(V.is_Str(a.t), V.is_Str(b.t))
-                both_int = z3.And(V.is_intlike(a.t), V.is_intlike(b.t))
-                both_num = z3.And(V.is_num(a.t), V.is_num(b.t))
+                both_str = z3.And(self.isk(a, "str"), self.isk(b, "str"))
+                both_int = z3.And(self.isk(a, "intlike"), self.isk(b, "intlike"))
+                both_num = z3.And(self.isk(a, "num"), self.isk(b, "num"))
                 res = []
                 for (s2, x) in self.need(s, z3.Or(both_str, both_num), "TypeError", e, "operands of + are both str or both numbers"):
                     if x is not None:
@@ -487,12 +591,12 @@ class Executor:
                     val = z3.If(both_str, V.VStr(z3.Concat(V.get_s(a.t), V.get_s(b.t))),
                                 z3.If(both_int, V.VInt(V.to_int(a.t) + V.to_int(b.t)),
                                       V.VFloat(V.to_real(a.t) + V.to_real(b.t))))
-                    hint = "str" if a.hint == "str" and b.hint == "str" else None
+                    hint = "str" if a.hint == "str" and b.hint == "str" else ("int" if a.hint == "int" and b.hint == "int" else None)
                     res.append((s2, Z(z3.simplify(val), hint)))
                 return res
             if isinstance(op, (ast.Sub, ast.Mult)):
-                both_int = z3.And(V.is_intlike(a.t), V.is_intlike(b.t))
-                both_num = z3.And(V.is_num(a.t), V.is_num(b.t))
+                both_int = z3.And(self.isk(a, "intlike"), self.isk(b, "intlike"))
+                both_num = z3.And(self.isk(a, "num"), self.isk(b, "num"))
                 res = []
                 for (s2, x) in self.need(s, both_num, "TypeError", e, "operands of -/* are numbers"):
                     if x is not None:
@@ -502,7 +606,7 @@ class Executor:
                         val = z3.If(both_int, V.VInt(V.to_int(a.t) - V.to_int(b.t)), V.VFloat(V.to_real(a.t) - V.to_real(b.t)))
                     else:
                         val = z3.If(both_int, V.VInt(V.to_int(a.t) * V.to_int(b.t)), V.VFloat(V.to_real(a.t) * V.to_real(b.t)))
-                    res.append((s2, Z(z3.simplify(val))))
+                    res.append((s2, Z(z3.simplify(val), "int" if a.hint == "int" and b.hint == "int" else None)))
                 return res
         if isinstance(op, ast.Add) and isinstance(a, RefV) and isinstance(b, RefV):
             ba, bb = s.store[a.ref], s.store[b.ref]
@@ -563,7 +667,8 @@ class Executor:
             if not (isinstance(a, Z) and isinstance(b, Z)):
                 raise Unsupported("ordering of non-scalars", node)
             out = []
-            for (s2, x) in self.need(s, V.order_ok(a.t, b.t), "TypeError", node, "ordering operands are both numbers or both str"):
+            okc = z3.Or(z3.And(self.isk(a, "num"), self.isk(b, "num")), z3.And(self.isk(a, "str"), self.isk(b, "str")))
+            for (s2, x) in self.need(s, okc, "TypeError", node, "ordering operands are both numbers or both str"):
                 if x is not None:
                     out.append((s2, x))
                     continue
@@ -653,10 +758,9 @@ class Executor:
         if isinstance(container, Z) and isinstance(item, Z):
             c, i = container.t, item.t
             # str in str (the only scalar container); other kinds: heap lookups
-            is_s = z3.simplify(V.is_Str(c))
-            if z3.is_true(is_s):
+            if self.def_str(container, s):
                 out = []
-                for (s2, x) in self.need(s, V.is_Str(i), "TypeError", node, "left operand of `in <str>` is a str"):
+                for (s2, x) in self.need(s, self.isk(item, "str"), "TypeError", node, "left operand of `in <str>` is a str"):
                     out.append((s2, x if x is not None else z3.Contains(V.get_s(c), V.get_s(i))))
                 return out
             out = []
@@ -953,7 +1057,7 @@ class Executor:
                 raise Unsupported("non-scalar index", node)
             n = z3.Length(box.term)
             i = V.to_int(idx.t)
-            ok = z3.And(V.is_intlike(idx.t), i >= -n, i < n)
+            ok = z3.And(self.isk(idx, "intlike"), i >= -n, i < n)
             out = []
             for (s2, x) in self.need(s, ok, "IndexError", node, "index within the list"):
                 if x is not None:
@@ -964,12 +1068,11 @@ class Executor:
             return out
         if isinstance(base, Z) and isinstance(idx, Z):
             b = base.t
-            is_s = z3.simplify(V.is_Str(b))
-            if z3.is_true(is_s):
+            if self.def_str(base, s):
                 n = z3.Length(V.get_s(b))
                 i = V.to_int(idx.t)
                 out = []
-                for (s2, x) in self.need(s, V.is_intlike(idx.t), "TypeError", node, "string index is an int"):
+                for (s2, x) in self.need(s, self.isk(idx, "intlike"), "TypeError", node, "string index is an int"):
                     if x is not None:
                         out.append((s2, x))
                         continue
@@ -993,7 +1096,7 @@ class Executor:
                 raise Unsupported("slice bound", node)
             i = V.to_int(v.t)
             return z3.If(i < 0, z3.If(i + n < 0, 0, i + n), z3.If(i > n, n, i)), V.is_intlike(v.t)
-        if isinstance(base, Z) and z3.is_true(z3.simplify(V.is_Str(base.t))):
+        if isinstance(base, Z) and self.def_str(base, s):
             sv = V.get_s(base.t)
             n = z3.Length(sv)
             l, lc = bound(lo, n, z3.IntVal(0))
@@ -1368,12 +1471,84 @@ class Executor:
             if is_exc(c):
                 out.append((s, ("raise", c)))
                 continue
+            base_len = len(s.pc)
+            base_known, base_subst = dict(s.known), list(s.subst)
             t, f = self.branch(s, self.truth(c, s, stmt), stmt)
+            mine = []
             if t is not None:
-                out.extend(self.exec_block(stmt.body, t))
+                mine.extend(self.exec_block(stmt.body, t))
             if f is not None:
-                out.extend(self.exec_block(stmt.orelse, f))
+                mine.extend(self.exec_block(stmt.orelse, f))
+            out.extend(self.merge_normal(mine, base_len, base_known, base_subst))
         return out
+
+    def merge_normal(self, outcomes, base_len, base_known, base_subst):
+        """Join the fall-through states of an if-statement into one (values become ite terms) when they
+        differ only in scalar variables / scalar object fields.  Purely an optimisation: sound because the
+        joined path condition is the disjunction of the branch conditions."""
+        normal = [(s, oc) for (s, oc) in outcomes if oc is None]
+        if len(normal) < 2 or len(normal) > 6 or not self.opts.get("merge", True):
+            return outcomes
+        states = [s for (s, _oc) in normal]
+        first = states[0]
+        for s in states[1:]:
+            if s.nref != first.nref or len(s.out) != len(first.out) or set(s.env) != set(first.env) or set(s.store) != set(first.store):
+                return outcomes
+            if s.pc[:base_len] is None:
+                return outcomes
+        sels = []
+        for s in states:
+            extra = s.pc[base_len:]
+            sels.append(z3.And(extra) if len(extra) != 1 else extra[0]) if extra else sels.append(T(True))
+
+        def join(vals):
+            v0 = vals[0]
+            if all(v is v0 for v in vals):
+                return v0
+            if all(isinstance(v, Z) for v in vals):
+                if all(v.t.get_id() == v0.t.get_id() for v in vals):
+                    return v0
+                t = vals[-1].t
+                for sel, v in zip(reversed(sels[:-1]), reversed(vals[:-1])):
+                    t = z3.If(sel, v.t, t)
+                hint = v0.hint if all(v.hint == v0.hint for v in vals) else None
+                return Z(t, hint)
+            if all(isinstance(v, RefV) for v in vals) and all(v.ref == v0.ref for v in vals):
+                return v0
+            return None
+        merged = first.fork()
+        for name in first.env:
+            j = join([s.env[name] for s in states])
+            if j is None:
+                return outcomes
+            merged.env[name] = j
+        for ref in first.store:
+            boxes = [s.store[ref] for s in states]
+            b0 = boxes[0]
+            if isinstance(b0, ObjBox):
+                if not all(isinstance(b, ObjBox) and set(b.fields) == set(b0.fields) for b in boxes):
+                    return outcomes
+                for fname in b0.fields:
+                    j = join([b.fields[fname] for b in boxes])
+                    if j is None:
+                        return outcomes
+                    merged.store[ref].fields[fname] = j
+            elif isinstance(b0, ListBox):
+                if not all(isinstance(b, ListBox) and len(b.items) == len(b0.items) and
+                           all((x is y) or (isinstance(x, Z) and isinstance(y, Z) and x.t.get_id() == y.t.get_id())
+                               for x, y in zip(b.items, b0.items)) for b in boxes):
+                    return outcomes
+            elif isinstance(b0, SeqBox):
+                if not all(isinstance(b, SeqBox) and b.term.get_id() == b0.term.get_id() for b in boxes):
+                    return outcomes
+            else:
+                if not all(b is b0 for b in boxes):
+                    return outcomes
+        del merged.pc[base_len:]
+        merged.known, merged.subst = dict(base_known), list(base_subst)
+        merged.assume(z3.Or(sels))
+        rest = [(s, oc) for (s, oc) in outcomes if oc is not None]
+        return [(merged, None)] + rest
 
     def st_Raise(self, stmt, st):
         if stmt.exc is None:
